@@ -494,7 +494,7 @@ func runC05(rc *RunCtx, i int) {
 		swg.Wait()
 		stopReturned.Store(true)
 		e.Start() // no-op on a stopped engine
-		c3, cancel3 := context.WithTimeout(context.Background(), 20*time.Second)
+		c3, cancel3 := context.WithTimeout(context.Background(), core.Patience)
 		stopErr3 = e.Stop(c3)
 		cancel3()
 		close(stopDone)
